@@ -47,7 +47,36 @@ TABLES = {
                   g=["atanh_r(x)", "q", "2real * x * q * q", "(6real * x * x + 2real) * q * q * q"]),
 }
 
+def _nested_hd():
+    lv = ["re_re", "re_eps", "eps_re", "eps_eps"]
+    return dict(shape="hd", leaves=lv, outs=lv, smap=dict(zip(lv, ["re", "eps1", "eps2", "eps1eps2"])))
+
+
+def _nested_hhd():
+    hd = ["re_re", "re_eps", "eps_re", "eps_eps"]
+    lv = ["re_" + x for x in hd] + ["eps_" + x for x in hd]
+    sp = ["re", "eps1", "eps2", "eps1eps2", "eps3", "eps1eps3", "eps2eps3", "eps1eps2eps3"]
+    return dict(shape="hhd", leaves=lv, outs=lv, smap=dict(zip(lv, sp)))
+
+
+def _u_hyps(u):
+    return [f"({u}) * recip_r({u}) == 1real", f"recip_r({u}) * recip_r(recip_r({u})) == 1real"]
+
+
+# nested instantiations evaluate the inner type's functions on jets, which introduces atoms such as recip_r(recip_r(u));
+# the facts relating them are instances of ax_recip
+NESTED_HYPS = {
+    "asin": _u_hyps("1real - x_re * x_re"), "acos": _u_hyps("1real - x_re * x_re"), "atanh": _u_hyps("1real - x_re * x_re"),
+    "asinh": _u_hyps("1real + x_re * x_re"), "atan": _u_hyps("1real + x_re * x_re"), "acosh": _u_hyps("x_re * x_re - 1real"),
+    "log": ["ln_r(base) != 0real"], "log2": ["ln_r(2real) != 0real"], "log10": ["ln_r(10real) != 0real"],
+}
+NESTED_SKIP = ("powi_", "powf_", "sph_j0_zero", "sph_j1_zero", "sph_j2_zero")
+
+
 VEC_DESC = {
+    # monomorphised nestings: Dual<Dual<Sc>> is D(D(R)) = the hyper-dual algebra, Dual<Dual<Dual<Sc>>> = D(D(D(R)))
+    "Dual__Dual": _nested_hd(),
+    "Dual__Dual__Dual": _nested_hhd(),
     "DualVec": dict(shape="d", leaves=["re", "eps_i"], outs=["re", "eps_i"], smap={"re": "re", "eps_i": "eps"}),
     "Dual2Vec": dict(shape="hd", leaves=["re", "v1_i", "v1_j", "v2_ij"], outs=["re", "v1_i", "v2_ij"],
                      smap={"re": "re", "v1_i": "eps1", "v1_j": "eps2", "v2_ij": "eps1eps2"}, swap={"v1_j": ("v1_i", {"v1_i": "v1_j", "v1_j": "v1_i"})}),
@@ -138,17 +167,23 @@ class Gen:
                 res.append(self.m(fn_, prefix + src, sw, extra))
         return res
 
+    def to_spec(self, jet):
+        """reorder a jet given in leaf order into the part order of the specification shape"""
+        d = dict(zip(self.leaves, jet))
+        inv = {v: k for k, v in self.smap.items()}
+        return [d[inv[sp]] for sp in self.sparts]
+
     def smul(self, out, a, b):
-        return mul_call(self.shape, self.smap[out], a, b)
+        return mul_call(self.shape, self.smap[out], self.to_spec(a), self.to_spec(b))
 
     def smul_jet(self, a, b):
-        return [mul_call(self.shape, self.smap[l], a, b) for l in self.leaves]
+        return [mul_call(self.shape, self.smap[l], self.to_spec(a), self.to_spec(b)) for l in self.leaves]
 
     def slift(self, out, x, g):
-        return lift_call(self.shape, self.smap[out], x, g)
+        return lift_call(self.shape, self.smap[out], self.to_spec(x), g)
 
     def slift_jet(self, x, g):
-        return [lift_call(self.shape, self.smap[l], x, g) for l in self.leaves]
+        return [lift_call(self.shape, self.smap[l], self.to_spec(x), g) for l in self.leaves]
 
     def const(self, c):
         return [c] + self.zeros
@@ -167,11 +202,11 @@ def gen_type_lemmas(meta):
     # ---------------- C02: product / quotient / sum / difference / negation ----------------
     if have("mul_rr"):
         L("mul", reals(A + B), [], [f"{m('mul_rr', p, [A, B])} == {G.smul(p, A, B)}" for p in outs],
-          ["C02", "C03", "C07"], f"&{ty} * &{ty} is the truncated Cauchy (Leibniz) product, entry-wise for vector types")
+          ["C02", "C03", "C07", "C04"], f"&{ty} * &{ty} is the truncated Cauchy (Leibniz) product, entry-wise for vector types")
     if have("div_rr"):
         q = G.mjet("div_rr", [A, B])
         L("div", reals(A + B), ["b_re != 0real", "b_re * recip_r(b_re) == 1real"], [f"{G.smul(p, q, B)} == a_{p}" for p in outs],
-          ["C02", "C03", "C07"], f"q = &{ty} / &{ty} satisfies q (x) b == a (quotient rule incl. all mixed parts)")
+          ["C02", "C03", "C07", "C04"], f"q = &{ty} / &{ty} satisfies q (x) b == a (quotient rule incl. all mixed parts)")
     for op, sym in [("add", "+"), ("sub", "-")]:
         if have(f"{op}_rr"):
             L(op, reals(A + B), [], [f"{m(op + '_rr', p, [A, B])} == a_{p} {sym} b_{p}" for p in outs], ["C02", "C03", "C07"], f"&{ty} {sym} &{ty} is part-wise")
@@ -211,17 +246,42 @@ def gen_type_lemmas(meta):
         L("mul_add", reals(A + B + Cv), [], [f"{m('mul_add', p, [A, B, Cv])} == {m('mul_rr', p, [A, B])} + c_{p}" for p in outs], ["C08", "C03"], "default mul_add = self*a+b")
     # ---------------- C01: chain rule and elementary functions ----------------
     Gs = ["g0", "g1", "g2", "g3"][: G.order + 1]
-    if have("chain_rule"):
+    if have("chain_rule") and "__" not in ty:
         L("chain_rule", reals(X + Gs), [], [f"{m('chain_rule', p, [X], Gs)} == {G.slift(p, X, Gs)}" for p in outs],
-          ["C01", "C03", "C07"], "chain rule = Faa di Bruno lift (nested first-order chain rule)")
+          ["C01", "C03", "C07", "C04"], "chain rule = Faa di Bruno lift (nested first-order chain rule)")
+    nested = "__" in ty
     for g, tab in TABLES.items():
         if not have(g):
             continue
         extra = tab.get("extra_params", [])
+        hyp = list(NESTED_HYPS.get(g, [])) if nested else []
         lets = "let x = x_re; " + "".join(f"let {n} = {e}; " for n, e in tab["atoms"])
         ens = ["({ " + lets + f"{m(g, p, [X], extra)} == {G.slift(p, X, ['(' + t + ')' for t in tab['g']])}" + " })" for p in outs]
-        L(g, reals(X + extra), [], ens, ["C01", "C03", "C07"], f"{g}: result jet = lift of the derivative table of {g} at x.re")
-    return out + gen_type_lemmas2(meta)
+        L(g, reals(X + extra), hyp, ens, ["C01", "C03", "C07", "C04"] if nested else ["C01", "C03", "C07"], f"{g}: result jet = lift of the derivative table of {g} at x.re")
+    ls = out + gen_type_lemmas2(meta)
+    if nested:
+        # exponent / small-argument case splits of the inner level are not replicated for the nested units
+        ls = [l for l in ls if not any(l.name.startswith(f"lem_{ty}_{k}") for k in NESTED_SKIP)]
+        for l in ls:
+            if "C04" not in l.prop:
+                l.prop = l.prop + ["C04"]
+    return fix_real_leaf(G, ls)
+
+
+def fix_real_leaf(G, ls):
+    """templates name the innermost real part `<v>_re`; for nested types that leaf is `<v>_re_re...`"""
+    import re as _re
+    rl = G.leaves[0]
+    if rl == "re":
+        return ls
+    pat = _re.compile(r"\b([a-z])_re\b")
+    fx = lambda t: pat.sub(lambda m_: m_.group(1) + "_" + rl, t)  # noqa: E731
+    for l in ls:
+        l.params = fx(l.params)
+        l.requires = [fx(x) for x in l.requires]
+        l.ensures = [fx(x) for x in l.ensures]
+        l.body = fx(l.body)
+    return ls
 
 
 def gen_type_lemmas2(meta):
@@ -266,7 +326,7 @@ def gen_type_lemmas2(meta):
                   "({ let q = o_re * (1real / s_re); (1real + q * q) * recip_r(1real + q * q) == 1real }) || s_re == 0real"]
         for cname, hy in [("x_dominant", ["!(abs_r(o_re) < abs_r(s_re))", "o_re != 0real"]), ("y_dominant", ["abs_r(o_re) < abs_r(s_re)", "s_re != 0real"])]:
             ens = [f"{m('atan2', p, [Sx_, Ox_])} * (o_re * o_re + s_re * s_re) == o_re * s_{p} - s_re * o_{p}" for p in first]
-            ens.append(f"{m('atan2', 're', [Sx_, Ox_])} == atan2_r(s_re, o_re)")
+            ens.append(f"{m('atan2', outs[0], [Sx_, Ox_])} == atan2_r(s_re, o_re)")
             L(f"atan2_{cname}", reals(Sx_ + Ox_), hy + common, ens, ["C01", "C10", "C03"],
               f"atan2: real part = atan2 of the real parts; first-order parts y' (o^2+s^2) = o s' - s o' ({cname} half-plane, axes included)")
     # ---------------- C09 powers ----------------
